@@ -319,6 +319,25 @@ def run(ctx: Any, prog: Program) -> None:
     kw = {k.arg: k.value for k in tcalls[0].keywords}
     ok = 'allow_escapes' in kw and isinstance(kw['allow_escapes'], ast.Name) and kw['allow_escapes'].id == 'allow_escapes'
     ctx.check('C01.R4', ok, kv, tcalls[0], 'Tokenizer must be constructed with allow_escapes=allow_escapes', text='Tokenizer(allow_escapes=...)')
+    # ... and the text itself: the first argument is the parameter, and nothing in parse() rebinds that parameter (a filter, decoder or
+    # line-wise pre-pass in front of the tokenizer sees chunks, not tokens - what it drops or rewrites depends on where the input was cut)
+    _pp = [a.arg for a in parse.args.args if a.arg not in ('self', 'cls')]
+    src_param = _pp[0] if _pp else None
+    first = tcalls[0].args[0] if tcalls[0].args else kw.get('data')
+    ctx.check('C01.R4', src_param is not None and isinstance(first, ast.Name) and first.id == src_param, kv, tcalls[0],
+              f'Tokenizer is constructed on `{U(first)[:50] if first is not None else "?"}`, not on the `{src_param}` parse() was given', text='Tokenizer(<the input itself>)')
+    rebinds = [n for n in ast.walk(parse) if isinstance(n, ast.Name) and n.id == src_param and isinstance(n.ctx, ast.Store)]
+    # decoding bytes as a whole is not a pre-pass over chunks; a value that does not come from the input at all is something else entirely
+    for rb in list(rebinds):
+        asg = kv.parents.get(rb)
+        val = getattr(asg, 'value', None)
+        if isinstance(val, ast.Call) and isinstance(val.func, ast.Attribute) and val.func.attr == 'decode' and dotted(val.func.value) == src_param:
+            rebinds.remove(rb)
+        elif val is None or not any(isinstance(x, ast.Name) and x.id == src_param for x in ast.walk(val)):
+            ctx.shape('C01.R4', False, kv, rb, f'`{src_param}` is rebound to something not derived from it (`{U(asg)[:60]}`)', text='input reaches the tokenizer unchanged')
+            rebinds.remove(rb)
+    ctx.check('C01.R4', not rebinds, kv, rebinds[0] if rebinds else parse, f'Keyvalues.parse rebinds its input `{src_param}` before tokenizing (`{U(kv.parents.get(rebinds[0]))[:70] if rebinds else ""}`): '
+              'a pre-pass over the raw chunks cannot know whether it is inside a quoted string, so content is altered depending on how the text was split', text='input reaches the tokenizer unchanged')
     ok = 'string_bracket' in kw and isinstance(kw['string_bracket'], ast.Constant)
     # ---- R5 (parse side) ---------------------------------------------------------------------------
     # list mutations of the current block: only .append, or index-store guarded by a PROP_FLAG test
@@ -550,6 +569,7 @@ def _in_orelse(ifnode: ast.If, node: ast.AST, mod: Any) -> bool:
 
 
 MUTANTS = [
+    {'id': 'parse_prefilters_chunks', 'file': 'keyvalues.py', 'find': "            tokenizer = Tokenizer(\n                file_contents,", 'replace': "            if not isinstance(file_contents, (str, bytes)):\n                file_contents = (ln for ln in file_contents if not ln.startswith('//'))\n            tokenizer = Tokenizer(\n                file_contents,", 'expect': 'C01.R4'},
     {'id': 'value_newline_guard_loses_parentheses', 'file': 'keyvalues.py', 'find': "                    if not newline_values and ('\\n' in prop_value or '\\r' in prop_value):", 'replace': "                    if not newline_values and '\\n' in prop_value or '\\r' in prop_value:", 'expect': 'C01.R7'},
     {'id': 'pushback_list_class_level', 'file': 'tokenizer.py', 'find': "    _pushback: list[tuple[Token, str]]\n", 'replace': "    _pushback: list[tuple[Token, str]] = []\n", 'extra': [{'file': 'tokenizer.py', 'find': "        self._pushback = []\n        self.line_num = 1\n", 'replace': "        self.line_num = 1\n"}], 'expect': 'C01.R10'},
     {'id': 'ok_pushback_default_and_init', 'file': 'tokenizer.py', 'find': "    _pushback: list[tuple[Token, str]]\n", 'replace': "    _pushback: list[tuple[Token, str]] = []\n", 'expect': None},
